@@ -2,12 +2,26 @@ from kernels import K
 
 # ---------------------------------------------------------------- C18
 for _n, _tiers in ((1, ('quick', 'thorough')), (2, ('quick', 'thorough')), (3, ('quick', 'thorough')), (5, ('quick', 'thorough')),
-                   (7, ('quick', 'thorough')), (8, ('thorough',)), (10, ('thorough',))):
+                   (7, ('quick', 'thorough')), (8, ('thorough',))):  # nbpoly 10 (degrees 8, 9: sqrt(7), sqrt(8) join the tower): no verdict in 1200 s
     K('C18.a.%d' % _n, property='C18', engine='symex', harness='C18/hermite.cpp', entry='k_hermite',
       tus=['src/Polynomials/Hermite.cpp'], defines={'all': {'VF_N': _n}}, tiers=_tiers,
       bounds={'quick': 'nbpoly = %d (degrees 0..%d); y and r free reals (a continuum)' % (_n, _n - 1)},
-      timeout_ms={'quick': 40000, 'thorough': 1200000}, validate={'quick': 25, 'thorough': 50}, symex={'sqrt_memo': True},
+      timeout_ms={'quick': 40000, 'thorough': 300000}, validate={'quick': 25, 'thorough': 50}, symex={'sqrt_memo': True},
       what='hermitePolynomials(y, r, nbpoly): poly[k] == (-1)^k He_k(y)/sqrt(k!) * r^k against the textbook coefficient table of He_k',
       out='orthonormality of He_k/sqrt(k!) itself (textbook); rounding of the recurrence; nbpoly above the bound; hermiteCondExp*/hermiteCoefMetal and the other users',
       assumptions=['real-arithmetic reading; sqrt(k), sqrt(k!) are exact positive algebraic numbers',
                    'sign convention (-1)^k (Rodrigues form g^(k)/g of the geostatistical literature); orthonormality does not depend on it'])
+
+for _nk in (2, 3, 4):
+    for _part, _ents, _what in (
+            ('inv', ['k_roundtrip_z', 'k_roundtrip_y'], 'mutual inverses on the table range (both orders), images inside the table range'),
+            ('mono', ['k_monotone_clamp', 'k_monotone_clamp_inv'], 'both non-decreasing (two free query points), clamped to the end knots outside the range, knot maps to knot')):
+        K('C18.c.%d.%s' % (_nk, _part), property='C18', engine='symex', harness='C18/empirical.cpp', entries=_ents,
+          tus=['src/Anamorphosis/AnamEmpirical.cpp'], defines={'all': {'VF_NK': _nk}},
+          bounds={'quick': 'table with exactly %d knots, Z and Y strictly increasing free reals; query points free reals' % _nk},
+          # portfolio of two z3 strategies per case: one of them answers within ~2 s, the other often runs into the timeout
+          timeout_ms={'quick': 30000, 'thorough': 600000}, validate={'quick': 25, 'thorough': 50},
+          what='AnamEmpirical::setDisc, rawToTransformValue, transformToRawValue: ' + _what,
+          out='fitting of the table (dilution, normal score); tables with ties (not strictly increasing); more knots than the bound; rounding of the interpolation',
+          assumptions=['real-arithmetic reading of the linear interpolation', 'Z and Y strictly increasing'],
+          stubs=['AnamEmpirical object in raw storage: only _nDisc/_ZDisc/_YDisc initialised (constructors not run)'])
